@@ -241,3 +241,84 @@ Theorem C13_named_exact_after_history I MC (h t : list call) m p g a b :
   nth (List.length h) (run_session ROps I MC (h ++ Call_1d m p (okf g) a b :: t)%list) Exit = Ok (RInt g a b).
 Proof. exact (history_named_exact I MC h t m p g a b). Qed.
 Print Assumptions C13_named_exact_after_history.
+
+(** * The library's own back ends (sections 1.1 and 1.2), theorems of C13_Proofs_AS.v and C13_Proofs_GL.v *)
+From LP Require Import C13_Proofs_AS C13_Proofs_GL.
+
+(** "every named one-dimensional method returns the exact integral" - for "Adaptive-Simpson" without any premise on polynomials of
+    degree <= 5: every panel the recursion accepts (by its test or at the depth limit) returns Simpson's rule with one Richardson step,
+    which is Boole's rule, so the result is the integral for every tolerance, every orientation of the limits, equal limits, and every
+    method_parameter.  (Degree 5 is sharp: C13_adaptive_simpson_accuracy_refuted below is of degree 6.) *)
+Theorem C13_adaptive_simpson_exact_to_degree_5 I (k0 k1 k2 k3 k4 k5 : R) a b p :
+  let g := fun x => k0 + k1 * x + k2 * x ^ 2 + k3 * x ^ 3 + k4 * x ^ 4 + k5 * x ^ 5 in
+  integrate_named ROps I M_AdaptiveSimpson (okf g) a b p = Ok (RInt g a b).
+Proof. exact (adaptive_simpson_quintic k0 k1 k2 k3 k4 k5 I a b p). Qed.
+Print Assumptions C13_adaptive_simpson_exact_to_degree_5.
+
+(** "... within that method's accuracy (1e-9 relative ...)" for "Adaptive-Simpson", PARTIAL: the bound is relative to the three-point
+    Simpson estimate S0 of the whole interval from which Find_Epsilon derives the tolerance (not to the integral), it needs that no panel
+    is left at the depth limit with its test failing ([converged]: the run that prints no "did not converge" warning), and it carries the
+    premise that on every panel the error of the accepted value is at most K times the difference of the two Simpson estimates the test
+    looks at.  Missing for the full clause: that premise for the smooth families (it is false in general, next theorem), and S0 ~ integral.
+    Under these premises: |result - integral| <= 15 K 1e-9 |S0|, for both orientations of the limits. *)
+Theorem C13_adaptive_simpson_error_bound_partial I (g : R -> R) (K : R) a b p r : 0 <= K -> a <> b ->
+  let lo := Rmin a b in let hi := Rmax a b in
+  (forall u v, lo <= u -> u <= v -> v <= hi -> ex_RInt g u v) ->
+  (forall u v, lo <= u -> u <= v -> v <= hi -> Rabs (boole g u v - RInt g u v) <= K * Rabs (simp_diff g u v)) ->
+  converged g 20 lo hi (Rabs (1 / 1000000000 * simp3 g lo hi)) ->
+  integrate_named ROps I M_AdaptiveSimpson (okf g) a b p = Ok r ->
+  Rabs (r - RInt g a b) <= 15 * K * (Rabs (simp3 g lo hi) / 1000000000).
+Proof. exact (adaptive_simpson_error_bound I g K a b p r). Qed.
+Print Assumptions C13_adaptive_simpson_error_bound_partial.
+
+(** the same for the recursion itself, any depth limit and tolerance: the tolerances of the accepted panels add up to at most epsilon *)
+Theorem C13_adaptive_simpson_recursion_bound (g : R -> R) (K : R) bottom a b eps : 0 <= K -> a <= b ->
+  (forall u v, a <= u -> u <= v -> v <= b -> ex_RInt g u v) ->
+  (forall u v, a <= u -> u <= v -> v <= b -> Rabs (boole g u v - RInt g u v) <= K * Rabs (simp_diff g u v)) ->
+  converged g bottom a b eps ->
+  forall r, asimp ROps (okf g) bottom a b eps (simp3 g a b) (g a) (g b) (g ((a + b) / 2)) = Ok r ->
+  Rabs (r - RInt g a b) <= 15 * K * eps.
+Proof. exact (asimp_error_bound g K bottom a b eps). Qed.
+Print Assumptions C13_adaptive_simpson_recursion_bound.
+
+(** the full accuracy clause is FALSE of "Adaptive-Simpson" (the premise on the integrand above cannot be dropped): the polynomial
+    -x^6 + 5/4 x^4 - 1/4 x^2 = x^2 (1 - x^2)(x^2 - 1/4) vanishes at the five first samples on [-1, 1]; both Simpson estimates and the
+    tolerance derived from the first are 0, the test reads 0 <= 0, the method returns 0 - the integral is 1/21.  Replayed on the
+    implementation (corpus/C13/known.case, known finding K-C13-2: all five samples are exactly 0 in double precision too). *)
+Theorem C13_adaptive_simpson_accuracy_refuted :
+  exists (g : R -> R) (a b : R),
+    (forall x, g x = - x ^ 6 + 5 / 4 * x ^ 4 - 1 / 4 * x ^ 2) /\
+    (forall I p, integrate_named ROps I M_AdaptiveSimpson (okf g) a b p = Ok 0) /\
+    RInt g a b = 1 / 21.
+Proof. exact adaptive_simpson_accuracy_refuted. Qed.
+Print Assumptions C13_adaptive_simpson_accuracy_refuted.
+
+(** "Gauss-Legendre_2" with n points - over ANY number type, in particular the doubles of the extracted model, and for every n: the
+    table of roots and weights has exactly n rows ... *)
+Theorem C13_gauss_legendre_table_size {T} (Ops : NumOps T) n a b rw :
+  gl_rule Ops n a b = Ok rw -> List.length rw = Z.to_nat n.
+Proof. exact (gl_rule_length Ops n a b rw). Qed.
+Print Assumptions C13_gauss_legendre_table_size.
+
+(** ... and a request that returns has evaluated the integrand exactly once at each of the n roots of that table, in its order, and
+    nowhere else; the result is the sum of value times weight in that order (the sample-count clause of the check, for all n). *)
+Theorem C13_gauss_legendre_samples {T} (Ops : NumOps T) (f : T -> res T) a b n r : gl_integrate Ops f a b n = Ok r ->
+  exists rw fv, gl_rule Ops n a b = Ok rw /\ List.length rw = Z.to_nat n /\
+    Forall2 (fun x y => f x = Ok y) (map fst rw) fv /\ List.length fv = Z.to_nat n /\
+    r = fold_left (fun acc p => nadd Ops acc (nmul Ops (fst p) (snd p))) (combine fv (map snd rw)) (n0 Ops).
+Proof. exact (gl_integrate_samples Ops f a b n r). Qed.
+Print Assumptions C13_gauss_legendre_samples.
+
+(** the chain of overloads Integrate_Gauss_Legendre(func,a,b,n) -> (func, table) -> (values, table) never reaches one of the std::exit
+    branches of the two inner overloads and equals the model's [gl_integrate], for every integrand, limits and n ... *)
+Theorem C13_gauss_legendre_overload_chain {T} (Ops : NumOps T) (f : T -> res T) a b n :
+  rbind (gl_rule Ops n a b) (fun rw => gl_fun_rows Ops f (gl_rows rw)) = gl_integrate Ops f a b n.
+Proof. exact (gl_overload_chain Ops f a b n). Qed.
+Print Assumptions C13_gauss_legendre_overload_chain.
+
+(** ... while those branches are taken exactly as written when the overloads are called directly: sizes that differ, or a row that is
+    not a root and a weight, terminate *)
+Theorem C13_gauss_legendre_malformed_exits {T} (Ops : NumOps T) (fv : list T) (rows : list (list T)) :
+  (List.length fv <> List.length rows \/ Exists (fun row => List.length row <> 2%nat) rows) -> gl_sum_rows Ops fv rows = Exit.
+Proof. exact (gl_sum_rows_exits Ops fv rows). Qed.
+Print Assumptions C13_gauss_legendre_malformed_exits.
